@@ -166,3 +166,25 @@ impl<'a, K: Eq, V> Entry<'a, K, V> {
 		self
 	}
 }
+
+impl<K: Eq, V: PartialEq> PartialEq for HashMap<K, V> {
+	fn eq(&self, other: &Self) -> bool {
+		if self.items.len() != other.items.len() {
+			return false;
+		}
+		let mut i = 0;
+		while i < self.items.len() {
+			match other.get(&self.items[i].0) {
+				Some(v) => {
+					if *v != self.items[i].1 {
+						return false;
+					}
+				}
+				None => return false,
+			}
+			i += 1;
+		}
+		true
+	}
+}
+impl<K: Eq, V: Eq> Eq for HashMap<K, V> {}
